@@ -1,7 +1,7 @@
 (* C14 — CTCP encoding round-trips and automatic replies obey the reply discipline.
    Only statements here; proofs live in Proofs/CtcpProofs.v, the model in Model/Ctcp.v,
    the property's own definitions (ctcp_message, not_ctcp_cause, answers) in Spec/CtcpSpec.v. *)
-Require Import Bytes Names Ctcp CtcpSpec CtcpProofs.
+Require Import Bytes Names GoUpper Ctcp CtcpSpec CtcpProofs CtcpTableProofs.
 
 (* Decoding a PRIVMSG or NOTICE whose text was produced by the encoder returns the same
    command and text - for every command made of A-Z/0-9 and EVERY text (empty, with
@@ -92,3 +92,76 @@ Theorem C14_panic_exact : forall v e,
   exists c name, ctcp_message e c /\ c_command c = CTCP_FINGER /\ ev_source e = Some name.
 Proof. exact stage_panic_iff. Qed.
 Print Assumptions C14_panic_exact.
+
+(* ---- handlers registered by the program (Set / SetBg / Clear / ClearAll) ---- *)
+
+(* parseCMD: a name is rejected, or is the wildcard (only "*" itself), or is registered under
+   a key that a decoded command can equal ... *)
+Theorem C14_parse_cmd_keys : forall n,
+  parse_cmd n = [] \/ parse_cmd n = ctcp_wildcard \/ ctcp_tag (parse_cmd n).
+Proof. exact parse_cmd_keys. Qed.
+Print Assumptions C14_parse_cmd_keys.
+
+Theorem C14_parse_cmd_wildcard : forall n, parse_cmd n = ctcp_wildcard <-> n = ctcp_wildcard.
+Proof. exact parse_cmd_wild_iff. Qed.
+Print Assumptions C14_parse_cmd_wildcard.
+
+(* ... every command DecodeCTCP can produce can be registered, under itself or any ASCII
+   spelling of it ("version" serves VERSION) ... *)
+Theorem C14_parse_cmd_ascii : forall n, is_ascii n = true -> ctcp_tag (to_upper_ascii n) ->
+  parse_cmd n = to_upper_ascii n.
+Proof. exact parse_cmd_ascii. Qed.
+Print Assumptions C14_parse_cmd_ascii.
+
+(* ... and no decoded command equals the wildcard key, so the wildcard handler runs once. *)
+Theorem C14_decoded_not_wildcard : forall e c, ctcp_message e c -> c_command c <> ctcp_wildcard.
+Proof. exact decoded_not_wildcard. Qed.
+Print Assumptions C14_decoded_not_wildcard.
+
+(* Set and Clear act on the table like on a finite map keyed by parseCMD's result. *)
+Theorem C14_set_lookup : forall t n h k,
+  (parse_cmd n = [] -> table_set t n h = t) /\
+  (parse_cmd n <> [] -> lookup (parse_cmd n) (table_set t n h) = Some h) /\
+  (k <> parse_cmd n -> lookup k (table_set t n h) = lookup k t).
+Proof. exact set_lookup. Qed.
+Print Assumptions C14_set_lookup.
+
+Theorem C14_clear_lookup : forall t n k,
+  (parse_cmd n <> [] -> lookup (parse_cmd n) (table_clear t n) = None) /\
+  (k <> parse_cmd n -> lookup k (table_clear t n) = lookup k t).
+Proof. exact clear_lookup. Qed.
+Print Assumptions C14_clear_lookup.
+
+(* CTCP.call with ANY table: the wildcard handler's output, then the output of the command's
+   handler - or, when there is none, what the library itself adds (lib_errmsg): *)
+Theorem C14_call_structure : forall t c,
+  ctcp_call t c =
+    w <- run_opt (lookup ctcp_wildcard t) c ;;
+    r <- match lookup (c_command c) t with Some h => h c | None => Ok (lib_errmsg c) end ;;
+    Ok (w ++ r).
+Proof. exact call_structure. Qed.
+Print Assumptions C14_call_structure.
+
+(* ... at most the one ERRMSG NOTICE to the requester, never for a reply, never for ACTION,
+   never without a source that is a valid nickname. *)
+Theorem C14_library_adds : forall c o, In o (lib_errmsg c) ->
+  c_reply c = false /\ c_command c <> CTCP_ACTION /\
+  exists name, c_source c = Some name /\ is_valid_nick (to_rfc1459 name) = true /\
+    lib_errmsg c = [o] /\ o = notice (to_rfc1459 name) (encode_ctcp_raw CTCP_ERRMSG errmsg_text).
+Proof. exact lib_errmsg_discipline. Qed.
+Print Assumptions C14_library_adds.
+
+(* No reply loop for programs that register their own handlers: start from the default
+   table, apply any sequence of Set/SetBg/Clear/ClearAll; if every handler set stays silent
+   on replies (as the documentation of CTCPEvent.Reply asks), no NOTICE elicits anything.
+   (Example careless_handler_loops: without that hypothesis two clients do loop.) *)
+Theorem C14_user_table_no_loop : forall v ops e,
+  Forall op_reply_silent ops -> ev_command e = NOTICE ->
+  ctcp_stage (apply_ops v (default_table v) ops) e = Ok [].
+Proof. exact user_table_no_loop. Qed.
+Print Assumptions C14_user_table_no_loop.
+
+(* The library part of the stage cannot panic with any table of handlers that do not. *)
+Theorem C14_user_table_never_panics : forall t e, table_total t -> exists outs, ctcp_stage t e = Ok outs.
+Proof. exact stage_total_table. Qed.
+Print Assumptions C14_user_table_never_panics.
